@@ -28,6 +28,14 @@ Proof.
   - destruct (IH _ _ _ _ H) as (L & _ & G). cbn [length]. repeat split; try lia; auto.
 Qed.
 
+Lemma pscan_not_more s : forall p p' rest, pscan p s <> ScRes MoreData p' rest.
+Proof.
+  induction s as [|c s IH]; intros p p' rest H; cbn [pscan] in H; [discriminate|].
+  destruct (pbyte p c) as [[[r0 p0] u]|p1] eqn:E.
+  - destruct (pbyte_inl _ _ _ _ _ E) as (_ & Hm & _). destruct u; inversion H; congruence.
+  - exact (IH _ _ _ H).
+Qed.
+
 Lemma pscan_app s1 : forall p s2,
   pscan p (s1 ++ s2) = match pscan p s1 with
                        | ScMore p' => pscan p' s2
@@ -144,11 +152,11 @@ Proof.
   - destruct P as (d' & P & U' & R'). rewrite P.
     destruct (pscan_len _ _ _ _ _ E) as (L1 & L2 & L3).
     destruct r0.
-    + reflexivity.
+    + destruct (pscan_not_more _ _ _ _ E).
     + destruct (on_header (rev (hdr p')) r) as [r'|]; [|reflexivity].
       rewrite <- R'. apply IH; [exact U'|].
       rewrite R'. unfold idle at 1. rewrite (L3 eq_refl).
-      unfold idle in F. destruct (st p) eqn:Es; try lia. specialize (L2 eq_refl). lia.
+      unfold idle in F. destruct (st p) eqn:Es; try lia; specialize (L2 eq_refl); lia.
     + exists d'. auto.
     + reflexivity.
 Qed.
@@ -214,7 +222,7 @@ Proof.
     unfold consumed in B. cbn [concat] in B. rewrite app_length in B.
     destruct (N.ltb_spec 16384 (total + N.of_nat (length c))) as [B2|B2]; [lia|].
     apply IH; [exact H|]. unfold consumed. lia.
-  - destruct L as (d' & L & R'). rewrite L. inversion H; subst. cbn [obs]. rewrite R'. reflexivity.
+  - destruct L as (d' & L & R'). rewrite L. inversion H; subst. reflexivity.
 Qed.
 
 (* ------------------------------------------------------------------ segmentation independence *)
